@@ -422,7 +422,8 @@ class ResultQuantifier(CanBehaveLikeAVariable[T], ABC):
 
     @lru_cache(maxsize=None)
     def _required_variables_from_child_(self, child: Optional[SymbolicExpression] = None, when_true: bool = True):
-        child = self._child_ if child is None else child
+        # (a conclusion attached to this node asks as well, what is required from below is what the description selects)
+        child = self._child_ if not isinstance(child, QueryObjectDescriptor) else child
         if self._parent_:
             vars = self._parent_._required_variables_from_child_(self, when_true=when_true)
         else:
